@@ -38,6 +38,14 @@ M = {
  "C15-3": ("C15", "backward(): constant check before the tracking check", "backward() on a constant tensor of a tracked graph, called inside no_autodiff: clears the graph"),
  "C01-2": ("C01", "BroadcastTo.backward_var does its own reduction with grad.reshape((-1,)+a.shape).sum(0)", "broadcast_to stretching an inner axis of length 1 that is preceded by a longer axis ((3,1)->(3,4)): wrong gradient values"),
  "C01-3": ("C01", "max/min backward over all axes writes through out.ravel()[argmax] (a copy for non-C-contiguous data)", "max/min over all elements of a transposed / Fortran-ordered / layout-preserving operand: the path contributes zero gradient"),
+ "C02-4": ("C02", "EinSum.backward_var sizes its label map from the variable's own shape (not the maximum over operands)", "einsum with a repeated subscript on an operand whose length-1 axis broadcasts against a longer axis (ii,i->i with a:(1,1)): backward raises ValueError"),
+ "C02-5": ("C02", "MaxPoolND.backward_var takes the flat-index offsets from x.strides", "max_pool backward on a non-C-contiguous operand (Fortran-ordered, transposed or strided view): gradient scattered to wrong places / IndexError"),
+ "C03-4": ("C03", "dtype of a Python-scalar operand memoised with an untyped lru_cache keyed on the scalar's VALUE", "int/bool tensor combined with 2 after 2.0 (or True / 1 / 1.0) was seen with the same array dtypes: result dtype follows the first call"),
+ "C10-4": ("C10", "EinSum's redundant-operand cache keyed on id(v.data) instead of id(v)", "einsum of a non-constant x with a constant operand wrapping the same ndarray (x.data): x.grad doubled"),
+ "C12-4": ("C12", "UnView.backward_var does not copy an F-contiguous incoming gradient (np.asfortranarray returns it)", "Fortran-ordered base updated in place through a view, then backward: the stored / passed gradient is zeroed in the view's region"),
+ "C13-4": ("C13", "restore_old_graph only walks the base and its direct views", "failing in-place op on a tree with a view chain of depth >= 3: the deepest view's ops stay wired to placeholders, its grad reads None"),
+ "C14-4": ("C14", "first-contribution dtype cast removed (relying on the strides test)", "0-d float32/float16 tensor receiving a freshly computed float64 gradient: stored grad is float64"),
+ "C16-4": ("C16", "sliding_window_view rejects any step larger than the windowed axis", "valid single-placement configurations with step/stride > axis length (also through conv_nd / max_pool): ValueError"),
  "C05-4": ("C05", "_is_int_array_index only recognises ndarray / list index entries", "x[idx] = b with a repeated integer index spelled as a tuple / integer Tensor: the 'last write wins' masking of the value's gradient is skipped"),
  "C06-4": ("C06", "_op no longer detaches a disconnected view before choosing the base of a new view of it", "view taken from a view that an earlier backward() released: wrong .base (the previous epoch's base), .grad reads None after the next backward"),
  "C07-4": ("C07", "same code change as C06-4, found independently for C07", "repeating t = v[...]; (3*t).sum().backward() on a released view v: the gradient differs between iterations"),
